@@ -350,6 +350,27 @@ theorem sfLt_zero (f : Fmt) (hf : f.WF) (a : Nat) (h : FinEnc f a) :
     · intro h; have : 0 < (m : Rat) * pow2 e := by grind
       have := hmq.1 this; omega
 
+/-- round 3: the comparison `a < b` of two finite operands is the comparison of their values -/
+theorem sfLt_val (f : Fmt) (hf : f.WF) (a b : Nat) (ha : FinEnc f a) (hb : FinEnc f b) :
+    sfLt f a b = true ↔ encVal f a < encVal f b := by
+  obtain ⟨m, e, hd, -, -, hv⟩ := fin_dec f hf a ha
+  obtain ⟨n, k, hd2, -, -, hv2⟩ := fin_dec f hf b hb
+  rw [sfLt_fin f a b _ _ m n e k hd hd2, hv, hv2]
+  have hx := alignI_val (decide (f.signBit ≤ a)) m e (min e k) (by omega)
+  have hy := alignI_val (decide (f.signBit ≤ b)) n k (min e k) (by omega)
+  rw [← hx, ← hy]
+  generalize alignI (decide (f.signBit ≤ a)) m e (min e k) = x
+  generalize alignI (decide (f.signBit ≤ b)) n k (min e k) = y
+  have hp := pow2_pos (min e k)
+  simp only [decide_eq_true_eq]
+  constructor
+  · intro h
+    have : (x : Rat) < (y : Rat) := by exact_mod_cast h
+    exact Rat.mul_lt_mul_of_pos_right this hp
+  · intro h
+    have := Rat.lt_of_mul_lt_mul_right h (Rat.le_of_lt hp)
+    exact_mod_cast this
+
 /-- conversion between formats (`(float)d`, `(double)f`) is one rounding -/
 theorem sfCvt_rn (src dst : Fmt) (hs : src.WF) (hd : dst.WF) (a : Nat) (ha : FinEnc src a)
     (hr : InRange dst.bin (encVal src a)) :
